@@ -419,10 +419,13 @@ PROPS = {
     ),
     'C18': dict(
         monitor=True,
-        streams=[dict(name='edits', n_quick=4000, n_thorough=150000, nontrivial=_edits_nontrivial)],
+        streams=[dict(name='edits', n_quick=4000, n_thorough=150000, nontrivial=_edits_nontrivial),
+                 chain_stream(3000, 100000, _nt_bound, name='editchain')],
         rule='stream edits: lists of 1-14 named no-op providers with 0-5 ReplaceNamed/InsertBeforeNamed/InsertAfterNamed '
              'directives (runs, duplicated/missing/self targets, double tags), drawn from one splitmix64 state; '
-             'a case is non-trivial when it has at least one directive and binds; distinct = distinct case lines',
+             'a case is non-trivial when it has at least one directive and binds; distinct = distinct case lines. stream editchain: ordinary chains (all annotations, selection, '
+             'static hoisting, wrappers) in which a subset of the providers is named and one or two carry a directive; the whole observation must equal the model\'s, in which the '
+             'edits are applied before the NonFinal shift and classification',
         level_text='Theorems (Coq, no axioms) about the list-level model of handleReplaceByName: the edited list is a permutation of the input minus replaced target blocks, untagged providers keep their relative order, a carried-out insertion is adjacent to its target, bad targets and double tags fail; for all lists and directives. The model is tied to /repo by running the extracted model and the real Bind on the same generated lists and comparing execution order / error class.',
         level_note='Trusted: Coq kernel, extraction (ExtrOcamlBasic), OCaml driver, Go harness; the Go code itself is modelled, not verified; the tie is differential testing bounded by the generator (lists <=14, <=5 directives).',
         design_ref='DESIGN.md section 8 (C18)',
